@@ -86,8 +86,9 @@ class Ctx:
         """A negative control: a deliberately wrong trace/behaviour that the binding must reject."""
         self.controls.append({"control": name, "rejected": bool(fired)})
         if not fired:
-            from .tlc import MachineryError
-            raise MachineryError("negative control %r was NOT rejected: the binding is vacuous" % name)
+            # judged at the end: on a tree that breaks the property the sabotage a control applies may coincide with what
+            # the tree already does - then the violations found are the verdict; with no violation it is a machinery failure
+            self.failed_controls = getattr(self, "failed_controls", []) + [name]
 
     # -------- violations
     def violation(self, signature, description, replay=None):
@@ -109,6 +110,9 @@ class Ctx:
 
     # -------- finish
     def finish(self):
+        if getattr(self, "failed_controls", None) and not self.violations:
+            from .tlc import MachineryError
+            raise MachineryError("negative control %r was NOT rejected: the binding is vacuous" % self.failed_controls[0])
         self.cov["distinct_nontrivial"] = len(self._distinct)
         cov = dict(self.cov)
         cov["parts"] = self.parts
